@@ -4,10 +4,10 @@ package db
 
 import (
 	"context"
-	"regexp"
 	"encoding/json"
 	"errors"
 	"fmt"
+	"regexp"
 	"sort"
 	"strings"
 	"testing"
@@ -43,6 +43,10 @@ type c11World struct {
 	session2 string
 	session3 string // a one-time session of carol
 	seqKnown map[uint64]string
+	revDc1   string // dc: rev 1, then a local rev 2 (live)
+	verDc1   uint64 // version of dc's first revision
+	revDct1  string // dct: rev 1, then a local tombstone
+	verDct1  uint64
 }
 
 func c11Setup(t testing.TB) *c11World {
@@ -95,6 +99,24 @@ func c11Setup(t testing.TB) *c11World {
 		t.Fatalf("setup one-time session: %v", err)
 	}
 	w.session3 = once.ID
+	// documents with a local second revision (live / tombstone): targets of replicated writes that conflict with it
+	for _, id := range []string{"dc", "dct"} {
+		rev1, d1, err := coll.Put(ctx, id, Body{"channels": []string{"A"}, "v": 1})
+		if err != nil {
+			t.Fatalf("setup %s: %v", id, err)
+		}
+		if id == "dc" {
+			w.revDc1, w.verDc1 = rev1, d1.HLV.Version
+			if _, _, err = coll.Put(ctx, id, Body{BodyRev: rev1, "channels": []string{"A"}, "v": "local"}); err != nil {
+				t.Fatalf("setup %s rev 2: %v", id, err)
+			}
+		} else {
+			w.revDct1, w.verDct1 = rev1, d1.HLV.Version
+			if _, _, err = coll.DeleteDoc(ctx, id, DocVersion{RevTreeID: rev1}); err != nil {
+				t.Fatalf("setup %s tombstone: %v", id, err)
+			}
+		}
+	}
 	// an externally written document (not yet imported)
 	if err := coll.dataStore.SetRaw(ctx, "ext1", 0, nil, []byte(`{"channels":["A"],"ext":true}`)); err != nil {
 		t.Fatalf("setup ext1: %v", err)
@@ -161,6 +183,19 @@ func c11Ops() []c11Op {
 			_, _, err := w.v.coll.PutExistingRevWithBody(w.v.ctx, "d1", Body{"channels": []string{"A", "B"}, "v": 7}, []string{"2-abc", w.revD1}, true, ExistingVersionWithUpdateToHLV)
 			return err
 		}},
+		{Name: "pull-conflict-local-wins", Run: c11Pull("dc", false, LocalWinsConflictResolver)},
+		{Name: "pull-conflict-remote-wins", Run: c11Pull("dc", false, RemoteWinsConflictResolver)},
+		{Name: "pull-conflict-default", Run: c11Pull("dc", false, DefaultConflictResolver)},
+		{Name: "pull-conflict-remote-tombstone", Run: c11Pull("dc", true, DefaultConflictResolver)},
+		{Name: "pull-conflict-local-tombstone", Run: c11Pull("dct", false, DefaultConflictResolver)},
+		{Name: "pull-conflict-local-tombstone-local-wins", Run: c11Pull("dct", false, LocalWinsConflictResolver)},
+		{Name: "vv-pull-conflict-local-wins", Run: c11PullVV("dc", false, true, LocalWinsConflictResolver)},
+		{Name: "vv-pull-conflict-remote-wins", Run: c11PullVV("dc", false, true, RemoteWinsConflictResolver)},
+		{Name: "vv-pull-conflict-default", Run: c11PullVV("dc", false, true, DefaultLWWConflictResolutionType)},
+		{Name: "vv-pull-conflict-local-tombstone", Run: c11PullVV("dct", false, true, LocalWinsConflictResolver)},
+		{Name: "vv-pull-conflict-remote-tombstone", Run: c11PullVV("dc", true, true, RemoteWinsConflictResolver)},
+		{Name: "vv-pull-no-conflict", Run: c11PullVV("dc", false, false, DefaultLWWConflictResolutionType)},
+		{Name: "vv-pull-no-conflict-other-revtree", Run: c11PullVVOtherTree("dc")},
 		{Name: "import-on-demand", Run: func(w *c11World) error {
 			_, err := w.v.coll.GetDocument(w.v.ctx, "ext1", DocUnmarshalAll)
 			return err
@@ -240,6 +275,95 @@ func c11Ops() []c11Op {
 	}
 }
 
+// c11Pull is a revision arriving through a pull replication (rev-tree protocol) that conflicts with the local second
+// revision of the document and is resolved by the given resolver
+func c11Pull(id string, deleted bool, resolver ConflictResolverFunc) func(w *c11World) error {
+	return func(w *c11World) error {
+		rev1 := w.revDc1
+		if id == "dct" {
+			rev1 = w.revDct1
+		}
+		newDoc := &Document{ID: id, Deleted: deleted, RevID: "2-bbb"}
+		if !deleted {
+			newDoc.UpdateBody(Body{"channels": []string{"A", "B"}, "v": "remote"})
+		} else {
+			newDoc.UpdateBody(Body{}) // a tombstone arrives with an empty body
+		}
+		_, _, err := w.v.coll.PutExistingRevWithConflictResolution(w.v.ctx, PutDocOptions{
+			NewDoc:                         newDoc,
+			RevTreeHistory:                 []string{"2-bbb", rev1},
+			ForceAllowConflictingTombstone: deleted,
+			DocUpdateEvent:                 ExistingVersionWithUpdateToHLV,
+			ConflictResolver:               NewConflictResolver(resolver, nil),
+			NoConflicts:                    true,
+		})
+		return err
+	}
+}
+
+// c11PullVV is the same through the version-vector protocol: the incoming vector knows the document's first version
+// only (conflict) or also its second (no conflict)
+func c11PullVV(id string, deleted, conflict bool, resolver ConflictResolverFunc) func(w *c11World) error {
+	return func(w *c11World) error {
+		rev1, ver1 := w.revDc1, w.verDc1
+		if id == "dct" {
+			rev1, ver1 = w.revDct1, w.verDct1
+		}
+		cur, err := w.v.coll.GetDocument(w.v.ctx, id, DocUnmarshalSync)
+		if err != nil {
+			return err
+		}
+		pv := HLVVersions{w.v.db.EncodedSourceID: ver1}
+		history := []string{"2-bbb", rev1}
+		if !conflict {
+			pv[w.v.db.EncodedSourceID] = cur.HLV.Version
+			history = []string{"3-bbb", cur.GetRevTreeID(), rev1}
+		}
+		newDoc := &Document{ID: id, Deleted: deleted, RevID: history[0]}
+		if !deleted {
+			newDoc.UpdateBody(Body{"channels": []string{"A", "B"}, "v": "remote"})
+		} else {
+			newDoc.UpdateBody(Body{}) // a tombstone arrives with an empty body
+		}
+		incoming := &HybridLogicalVector{SourceID: "cmVtb3Rl", Version: cur.HLV.Version + 1000, PreviousVersions: pv}
+		newDoc.HLV = incoming
+		_, _, _, err = w.v.coll.PutExistingCurrentVersion(w.v.ctx, PutDocOptions{
+			NewDoc:                         newDoc,
+			RevTreeHistory:                 history,
+			ForceAllowConflictingTombstone: deleted,
+			NewDocHLV:                      incoming,
+			ConflictResolver:               NewConflictResolver(resolver, nil),
+			ISGRWrite:                      true,
+		})
+		return err
+	}
+}
+
+// c11PullVVOtherTree: the incoming vector dominates the local one (the sender has seen the local version) but the
+// revision-tree history sent along does not contain the local current revision - under the version-vector protocol
+// the two peers may know one version under different revision-tree ids
+func c11PullVVOtherTree(id string) func(w *c11World) error {
+	return func(w *c11World) error {
+		cur, err := w.v.coll.GetDocument(w.v.ctx, id, DocUnmarshalSync)
+		if err != nil {
+			return err
+		}
+		history := []string{"3-bbb", "2-bbb", w.revDc1}
+		newDoc := &Document{ID: id, RevID: history[0]}
+		newDoc.UpdateBody(Body{"channels": []string{"A", "B"}, "v": "remote"})
+		incoming := &HybridLogicalVector{SourceID: "cmVtb3Rl", Version: cur.HLV.Version + 1000, PreviousVersions: HLVVersions{w.v.db.EncodedSourceID: cur.HLV.Version}}
+		newDoc.HLV = incoming
+		_, _, _, err = w.v.coll.PutExistingCurrentVersion(w.v.ctx, PutDocOptions{
+			NewDoc:           newDoc,
+			RevTreeHistory:   history,
+			NewDocHLV:        incoming,
+			ConflictResolver: NewConflictResolver(DefaultLWWConflictResolutionType, nil),
+			ISGRWrite:        true,
+		})
+		return err
+	}
+}
+
 // snapshot of observable state, read with the hooks off. Sequence numbers, CAS values and timestamps are left out.
 func c11Snapshot(w *c11World) string {
 	v := w.v
@@ -248,7 +372,7 @@ func c11Snapshot(w *c11World) string {
 	v.vb.H.Enabled = false
 	defer func() { v.vb.H.Enabled = was }()
 	out := map[string]any{}
-	for _, id := range []string{"d1", "datt", "g1", "n1", "n2", "n3", "ext1"} {
+	for _, id := range []string{"d1", "datt", "g1", "n1", "n2", "n3", "ext1", "dc", "dct"} {
 		raw, xattrs, cas, err := v.coll.dataStore.GetWithXattrs(ctx, id, []string{base.SyncXattrName, base.VvXattrName, base.GlobalXattrName})
 		if err != nil && len(xattrs) == 0 && raw == nil {
 			out["doc:"+id] = "missing"
@@ -315,6 +439,19 @@ func c11Snapshot(w *c11World) string {
 			}
 		}
 		d["attachments"] = atts
+		if doc.HLV != nil {
+			// version values are clock readings: only which sources the vector names, and where, is compared
+			var pvs, mvs []string
+			for src := range doc.HLV.PreviousVersions {
+				pvs = append(pvs, src)
+			}
+			for src := range doc.HLV.MergeVersions {
+				mvs = append(mvs, src)
+			}
+			sort.Strings(pvs)
+			sort.Strings(mvs)
+			d["hlv"] = map[string]any{"cv_source": doc.HLV.SourceID, "pv_sources": pvs, "mv_sources": mvs}
+		}
 		out["doc:"+id] = d
 	}
 	a := v.db.Authenticator(ctx)
@@ -474,7 +611,7 @@ func c11Execute(t testing.TB, op c11Op, faults []c11Fault) c11Run {
 	run.after = c11Snapshot(w)
 	w.principalSeqs(carried)
 	run.acctViol = map[string]string{}
-	w.v.accountSequences(run.acctViol, "C11/sequences", op.Name, []string{"d1", "datt", "g1", "n1", "n2", "n3", "ext1"}, carried)
+	w.v.accountSequences(run.acctViol, "C11/sequences", op.Name, []string{"d1", "datt", "g1", "n1", "n2", "n3", "ext1", "dc", "dct"}, carried)
 	return run
 }
 
@@ -629,6 +766,69 @@ func c11Diff(a, b string) string {
 	return strings.Join(out, "; ")
 }
 
+// c11FaultFree judges the fault-free run of an operation
+func c11FaultFree(r *vreport.Report, op c11Op, x c11Run) {
+	if op.Reject && x.err == nil {
+		r.Violate("C11/faultfree/rejection-not-rejected/"+op.Name, "the fault-free run of a request that must be rejected succeeded", c11Case{Op: op.Name})
+	}
+	if !op.Reject && x.err != nil {
+		r.Violate("C11/faultfree/unexpected-error/"+op.Name, fmt.Sprintf("fault-free run failed: %v", x.err), c11Case{Op: op.Name})
+	}
+	if x.err != nil && x.after != x.before {
+		r.Violate("C11/error-but-state-changed/"+op.Name+"/faultfree", fmt.Sprintf("rejected request changed observable state: %s", c11Diff(x.after, x.before)), c11Case{Op: op.Name})
+	}
+	if x.err == nil && x.after == x.before && !strings.HasPrefix(op.Name, "session") {
+		r.Add("faultfree_noop_operations", 1)
+	}
+	for fp, d := range x.acctViol {
+		r.Violate(fp+"/"+op.Name+"/faultfree", d, c11Case{Op: op.Name})
+	}
+	if d := c11StateInvariant(x.after); d != "" {
+		r.Violate("C11/state/channels-do-not-match-the-current-body/"+op.Name+"/faultfree", d, c11Case{Op: op.Name})
+	}
+}
+
+// c11StateInvariant: a write is applied as a whole, so in every state the channel assignment of a live document is the
+// one the sync function (channel(doc.channels)) computes for the body that is current
+func c11StateInvariant(snapshot string) string {
+	var m map[string]json.RawMessage
+	if json.Unmarshal([]byte(snapshot), &m) != nil {
+		return ""
+	}
+	for k, v := range m {
+		if !strings.HasPrefix(k, "doc:") {
+			continue
+		}
+		var d struct {
+			Body     string   `json:"body"`
+			Deleted  bool     `json:"deleted"`
+			Channels []string `json:"channels"`
+		}
+		if json.Unmarshal(v, &d) != nil || d.Deleted || d.Body == "" {
+			continue
+		}
+		var body struct {
+			Channels []string `json:"channels"`
+		}
+		if json.Unmarshal([]byte(d.Body), &body) != nil {
+			continue
+		}
+		var have []string
+		for _, c := range d.Channels {
+			if !strings.Contains(c, "(removed@") {
+				have = append(have, c)
+			}
+		}
+		want := append([]string{}, body.Channels...)
+		sort.Strings(want)
+		sort.Strings(have)
+		if strings.Join(want, ",") != strings.Join(have, ",") {
+			return fmt.Sprintf("%s: the current body assigns channels %v, the document is in channels %v (%s)", k, want, have, string(v))
+		}
+	}
+	return ""
+}
+
 var _ = channels.Conflict
 var _ context.Context
 
@@ -649,6 +849,11 @@ func TestVerifC11(t *testing.T) {
 	if r.Replaying(&rc) {
 		op := byName[rc.Op]
 		ff := c11Execute(t, op, nil)
+		if len(rc.Faults) == 0 {
+			c11FaultFree(r, op, ff)
+			r.Add("evaluations", 1)
+			return
+		}
 		run := c11Execute(t, op, rc.Faults)
 		c11Check(r, op, ff, rc, run)
 		fmt.Printf("REPLAY-TRACE %s err=%v\n  fault-free: %s\n  this run:   %s\n", rc.Op, run.err, c11TraceString(ff.log), c11TraceString(run.log))
@@ -663,24 +868,7 @@ func TestVerifC11(t *testing.T) {
 			if ff == nil {
 				x := c11Execute(t, op, nil)
 				ff = &x
-				if r.Shard == 0 || true {
-					// fault-free expectations
-					if op.Reject && x.err == nil {
-						r.Violate("C11/faultfree/rejection-not-rejected/"+op.Name, "the fault-free run of a request that must be rejected succeeded", c11Case{Op: op.Name})
-					}
-					if !op.Reject && x.err != nil {
-						r.Violate("C11/faultfree/unexpected-error/"+op.Name, fmt.Sprintf("fault-free run failed: %v", x.err), c11Case{Op: op.Name})
-					}
-					if x.err != nil && x.after != x.before {
-						r.Violate("C11/error-but-state-changed/"+op.Name+"/faultfree", fmt.Sprintf("rejected request changed observable state: %s", c11Diff(x.after, x.before)), c11Case{Op: op.Name})
-					}
-					if x.err == nil && x.after == x.before && !strings.HasPrefix(op.Name, "session") {
-						r.Add("faultfree_noop_operations", 1)
-					}
-					for fp, d := range x.acctViol {
-						r.Violate(fp+"/"+op.Name+"/faultfree", d, c11Case{Op: op.Name})
-					}
-				}
+				c11FaultFree(r, op, x)
 			}
 			return *ff
 		}
